@@ -96,3 +96,15 @@ package decoder
 //@   assert before attrValueCompletionAtPos#2 : [C08] implies(schema.ActiveSelfRefsFromContext(arg1), bodySchema.Extensions != nil && bodySchema.Extensions.SelfRefs)
 //@   assert before attrValueCompletionAtPos#3 : [C08] implies(schema.ActiveSelfRefsFromContext(arg1), bodySchema.Extensions != nil && bodySchema.Extensions.SelfRefs)
 //@   assert before attrValueCompletionAtPos#4 : [C08] implies(schema.ActiveSelfRefsFromContext(arg1), bodySchema.Extensions != nil && bodySchema.Extensions.SelfRefs)
+
+// ---- C06: the candidate limit and the 'complete' flag of value completion
+//@ contract (*decoder.PathDecoder).candidatesFromHooks (d, ctx, attr, aSchema, outerBodyRng, pos) (result)
+//@   requires attr != nil && aSchema != nil
+//@   ensures [C06] uint(len(result)) <= d.maxCandidates
+//@   loop 1 invariant [C06] count == len(candidates) && uint(count) <= d.maxCandidates && fresh(candidates)
+//@   loop 2 invariant [C06] count == len(candidates) && uint(count) <= d.maxCandidates && fresh(candidates)
+//@ contract (*decoder.PathDecoder).attrValueCompletionAtPos (d, ctx, attr, schema, outerBodyRng, pos) (result, err)
+//@   requires attr != nil && schema != nil
+//@   ensures [C06] uint(len(result.List)) <= d.maxCandidates
+//@   ensures [C06] implies(result.IsComplete, len(schema.CompletionHooks) == 0)
+//@   loop 1 invariant [C06] count == len(candidates.List) && uint(count) <= d.maxCandidates
